@@ -23,7 +23,7 @@ sys.path.insert(0, os.path.join(VERIF, 'gen'))
 import nlgen
 from nlgen import Model, Rng
 
-PROP_MIN_THEOREMS = 38
+PROP_MIN_THEOREMS = 36
 
 # every type except cones / unary-encoding marker: natively accepted in run A
 BASE_ACCEPT = ['LinConRange', 'LinConLE', 'LinConEQ', 'LinConGE',
@@ -853,14 +853,11 @@ def ctx_cases(ck, exe, drv, wd, stats):
                 c0 = drv.ask('rangectx lb=%s ub=%s' % (lbs, ubs)).split(' ')[1]
                 ans = drv.ask('propquad quad=%s ctx=%s %s' % (qterm, c0, bnds_arg(vsA)))
                 want = dict(t.split(':') for t in ans.split(' ')[1:]).get(str(res))
-                ansf = drv.ask('propquadfixed quad=%s ctx=%s %s' % (qterm, c0, bnds_arg(vsA)))
-                wantf = dict(t.split(':') for t in ansf.split(' ')[1:]).get(str(res))
                 stats['ctx_cases'] = stats.get('ctx_cases', 0) + 1
                 if seen_ctx != want:
                     dis.append({'type': 'PropagateResult2QuadTerms', 'case': 'quadctx#%d' % n, 'ops': [],
-                                'why': 'context stored on abs() is %s, the Lean rule propQuad (as coded) says %s (repaired rule: %s)' % (seen_ctx, want, wantf),
-                                'nl': open(stub + '.nl').read(), 'options': ['acc:abs=0'], 'ctx_rule': True,
-                                'matches_fixed_rule': seen_ctx == wantf})
+                                'why': 'context stored on abs() is %s, the Lean rule propQuad says %s' % (seen_ctx, want),
+                                'nl': open(stub + '.nl').read(), 'options': ['acc:abs=0'], 'ctx_rule': True})
                 # oracle on the real delivered model: grid over x, z; auxiliaries: v (abs result) on a grid, flag 0/1
                 consB = compile_delivered([e for e in rb['log'] if e.get('ev') == 'con'])
                 if consB is None:
@@ -894,7 +891,7 @@ def ctx_cases(ck, exe, drv, wd, stats):
                 if bad_pt:
                     findings.append({'case': 'quadctx#%d' % n, 'coef': coef, 'sense': sense, 'xbounds': [xl, xu],
                                      'point': {'x': bad_pt[0], 'z': bad_pt[1], 'aux': bad_pt[2]},
-                                     'ctx_on_abs': seen_ctx, 'ctx_repaired_rule': wantf,
+                                     'ctx_on_abs': seen_ctx, 'ctx_model_rule': want,
                                      'nl': open(stub + '.nl').read(), 'options': ['acc:abs=0'],
                                      'accept': ','.join(acc)})
     return dis, findings
